@@ -144,10 +144,12 @@ class SlowRecReg(RecReg):
 
 
 class StubEmbedding(BaseEstimator, TransformerMixin):
-    """Deterministic stand-in for TSNE (fit_transform only): a fixed linear 2-D embedding."""
+    """Deterministic stand-in for TSNE (fit_transform only): a fixed linear 2-D embedding.  Like TSNE it has a
+    `perplexity` parameter (PredictableTSNE lowers it on its private copy when the training set is small)."""
 
-    def __init__(self, scale=1.0):
+    def __init__(self, scale=1.0, perplexity=30.0):
         self.scale = scale
+        self.perplexity = perplexity
 
     def fit_transform(self, X, y=None):
         X = numpy.asarray(X, dtype=float)
@@ -216,3 +218,21 @@ class WarmReg(RecReg):
 
     def predict(self, X):
         return numpy.array([self.state_[0] + r for r in ids(X)], dtype=numpy.float64)
+
+
+class CarryReg(BaseEstimator, RegressorMixin):
+    """A regressor that, like a warm-started model, carries something from one fit of the SAME object to the next
+    (the number of fits shifts its predictions).  A meta-estimator that clones its `estimator` parameter never shows
+    the difference; one that trains the caller's object lets an earlier fit leak into a later one (C03)."""
+
+    def __init__(self, shift=1.0):
+        self.shift = shift
+
+    def fit(self, X, y, sample_weight=None):
+        self.n_fits_ = getattr(self, "n_fits_", 0) + 1
+        y = numpy.asarray(y, dtype=float)
+        self.mean_ = float(numpy.average(y, weights=sample_weight)) if y.shape[0] else 0.0
+        return self
+
+    def predict(self, X):
+        return numpy.full((numpy.asarray(X).shape[0],), self.mean_ + self.shift * (self.n_fits_ - 1))
